@@ -175,15 +175,35 @@ func (server *Server) Start() {
 						}
 
 						if isRoot {
+							if len(b) < HeaderV3LenBytes {
+								status = "error"
+								resps <- response{key: key, value: result}
+								server.logger.Printf("parsing header failed: %s is shorter than a header", key.name)
+								return
+							}
 							header, err := DeserializeHeader(b[0:HeaderV3LenBytes])
 							if err != nil {
 								status = "error"
+								resps <- response{key: key, value: result}
 								server.logger.Printf("parsing header failed: %v", err)
 								return
 							}
 
+							if header.RootOffset > uint64(len(b)) || header.RootLength > uint64(len(b))-header.RootOffset {
+								status = "error"
+								resps <- response{key: key, value: result}
+								server.logger.Printf("root directory of %s is outside the first %d bytes", key.name, len(b))
+								return
+							}
+
 							// populate the root first before header
-							rootEntries := DeserializeEntries(bytes.NewBuffer(b[header.RootOffset:header.RootOffset+header.RootLength]), header.InternalCompression)
+							rootEntries, err := deserializeEntriesChecked(bytes.NewBuffer(b[header.RootOffset:header.RootOffset+header.RootLength]), header.InternalCompression)
+							if err != nil {
+								status = "error"
+								resps <- response{key: key, value: result}
+								server.logger.Printf("parsing root directory of %s failed: %v", key.name, err)
+								return
+							}
 							result2 := cachedValue{directory: rootEntries, ok: true, etag: etag}
 
 							rootKey := cacheKey{name: key.name, offset: header.RootOffset, length: header.RootLength}
@@ -192,7 +212,13 @@ func (server *Server) Start() {
 							result = cachedValue{header: header, ok: true, etag: etag}
 							resps <- response{key: key, value: result, size: 127, ok: true}
 						} else {
-							directory := DeserializeEntries(bytes.NewBuffer(b), req.compression)
+							directory, err := deserializeEntriesChecked(bytes.NewBuffer(b), req.compression)
+							if err != nil {
+								status = "error"
+								resps <- response{key: key, value: result}
+								server.logger.Printf("parsing directory %s %d-%d failed: %v", key.name, key.offset, key.length, err)
+								return
+							}
 							result = cachedValue{directory: directory, ok: true, etag: etag}
 							resps <- response{key: key, value: result, size: 24 * len(directory), ok: true}
 						}
